@@ -68,15 +68,20 @@ class LabelDataset(KDDataset):
 class PerSampleLabelDataset(KDDataset):
     """no bulk accessor: samplers must fall back to getitem_class"""
 
-    def __init__(self, classes, n_classes):
+    def __init__(self, classes, n_classes, fail_at=()):
         super().__init__()
         self.classes = list(classes)
         self.n_classes = n_classes
+        self.fail_at = set(fail_at)  # label reads (counted per object copy) that fail once with an I/O error
+        self.reads = 0
 
     def __len__(self):
         return len(self.classes)
 
     def getitem_class(self, idx, ctx=None):
+        self.reads += 1
+        if self.reads in self.fail_at:
+            raise InjectedReadError(5, f"injected read error at label read {self.reads} (sample {idx})")
         return self.classes[idx]
 
     def getshape_class(self):
